@@ -8,6 +8,7 @@ import TinsModel.Wire.App.TheoremsCodec
 import TinsModel.Wire.App.TheoremsReparse
 import TinsModel.Wire.App.TheoremsApi
 import TinsModel.Wire.App.TheoremsOptApi
+import TinsModel.Wire.App.TheoremsExamples
 /-
   Per-layer theorems of the App family for the four wire properties (C01 parse_safe, C02 writesOnly, C03 reparse,
   C04 codec inverses).  This module only gathers the per-class files (it is what `Props/C01..C04` import):
@@ -21,6 +22,7 @@ import TinsModel.Wire.App.TheoremsOptApi
     TheoremsApi     — C02/C04 for API histories of the fixed-header classes: setters keep the invariant, getters read
                       back the last value set, other members untouched
     TheoremsOptApi  — DHCP / DHCPv6 / BootP: every modelled public call keeps the invariant
+    TheoremsExamples — non-vacuity: concrete non-trivial inputs/states satisfying the theorems' hypotheses
     TheoremsCodec   — C04: option look-up after add/remove, typed option codecs of DHCP and DHCPv6
   Every theorem is listed with `#print axioms` in lean/Audit/WireApp.lean.
 -/
